@@ -76,6 +76,10 @@ def _update_progset(asd_vals, mapping, progset):
         elif target[0] == "outcome":
             progset.covouts[(target[1], target[2])].progs[target[3]] = x
 
+    # The outcomes are cached inside the Covout, so the cache needs to be refreshed after changing the baseline or outcomes
+    for key in {(target[1], target[2]) for target in mapping if target[0] in {"baseline", "outcome"}}:
+        progset.covouts[key].update_outcomes()
+
 
 def _prepare_bounds(progset, unit_cost_bounds, baseline_bounds, capacity_bounds, outcome_bounds):
     # This is a separate function to _prepare_asd_inputs() because there may be complex logic related to
